@@ -95,9 +95,44 @@ def wire_class(r):
         return "hist result of %s.%s %s" % (x["cd"], x["op"], "changed after its call returned" if x["end"] != x["ret"] else "invalid")
     if k == "nts":
         i = r["in"]
-        return "nts %s cookies=%s placeholders=%s" % ("api" if r["src"].startswith("api") else "fields",
-                                                      "0" if not i["ck"] else ">0", "0" if not i["ph"] else ">0")
+        return "nts %s cookies=%s placeholders=%s%s" % ("api" if r["src"].startswith("api") else "fields",
+                                                        "0" if not i["ck"] else ">0", "0" if not i["ph"] else ">0",
+                                                        " placeholder-body=non-zero" if any(any(b) for b in i["ph"]) else "")
     return k
+
+
+PH_CLASSES = ["zero", "first", "last", "rand"]
+
+
+def ph_class(body):
+    """body-content class of a placeholder body as recorded (display / counting only)"""
+    nz = [j for j, x in enumerate(body) if x]
+    if not nz:
+        return "zero"
+    if nz == [0]:
+        return "first"
+    if nz == [len(body) - 1]:
+        return "last"
+    return "rand"
+
+
+def ph_case_stats(cases):
+    """what the generated NTS cases exercise in the body-content dimension (specification side)"""
+    st = dict(nts_cases=0, nonzero_body_cases=0, api_nonzero_body_cases=0, by_class={c: 0 for c in PH_CLASSES}, by_class_len={})
+    for c in cases:
+        if c.get("k") not in ("nts", "ntsapi"):
+            continue
+        st["nts_cases"] += 1
+        phb = c.get("phb") or []
+        lens = c["ph"] if c["k"] == "nts" else [c["cl"]] * len(phb)
+        if any(b != "zero" for b in phb):
+            st["nonzero_body_cases"] += 1
+            st["api_nonzero_body_cases"] += c["k"] == "ntsapi"
+        for b, n in zip(phb, lens):
+            st["by_class"][b] = st["by_class"].get(b, 0) + 1
+            k = "%s/%d" % (b, n)
+            st["by_class_len"][k] = st["by_class_len"].get(k, 0) + 1
+    return st
 
 
 def hist_bad_call(r):
@@ -149,7 +184,7 @@ def replay_of(r):
     if r["k"] == "nts":
         i = r["in"]
         return dict(kind="nts", src=r["src"], uid=len(i["uid"]), ck=[len(c) for c in i["ck"]], ph=[len(c) for c in i["ph"]],
-                    pt=[len(c) for c in i["pt"]])
+                    phb=[ph_class(c) for c in i["ph"]], pt=[len(c) for c in i["pt"]])
     if r["k"] == "lay":
         return {k: r[k] for k in ("k", "m", "ssds", "base", "f", "w", "off", "mode", "pre", "vs")}
     if r["k"] == "hist":
@@ -289,8 +324,16 @@ def _run(ctx, q, pool, lanes):
             raise vlib.Inconclusive("generated histories exercise no %s" % k)
     if hstat["codecs"] != HCODECS:
         raise vlib.Inconclusive("generated histories cover only the codecs %s" % hstat["codecs"])
-    ctx.log("TLC generated %d codec cases, %d (message, segmentation) behaviours and %d histories of calls %s" %
-            (len(wcases), len(kcases), len(hcases), hstat))
+    # ... and the NTS cases in the body-content dimension (bodies the decoder may ignore: cookie placeholders)
+    pstat = ph_case_stats(wcases)
+    for cl in PH_CLASSES:
+        if not pstat["by_class"].get(cl):
+            raise vlib.Inconclusive("generated NTS cases hold no placeholder body of class %s" % cl)
+    if len({k.split("/")[1] for k in pstat["by_class_len"] if not k.startswith("zero/")}) < 2 or not pstat["api_nonzero_body_cases"]:
+        raise vlib.Inconclusive("generated NTS cases vary non-zero placeholder bodies over fewer than two lengths / not in "
+                                "real-sized requests: %s" % pstat)
+    ctx.log("TLC generated %d codec cases, %d (message, segmentation) behaviours and %d histories of calls %s; "
+            "placeholder bodies %s" % (len(wcases), len(kcases), len(hcases), hstat, pstat))
     # the variants with the old switches (the code before the two fixes): spec self-test, see below
     f_wfa = pool.submit(ctx.tlc, "WireMC", "Wire_faithful.cfg", workers=2, timeout=600, allow_violation=True, tag="selftest-old-switches")
     f_kfa = pool.submit(ctx.tlc, "NtsKeStreamMC", "NtsKeStream_faithful.cfg", workers=2, timeout=600, allow_violation=True,
@@ -330,6 +373,17 @@ def _run(ctx, q, pool, lanes):
         raise vlib.Inconclusive("driver produced no in-memory / no TLS stream read")
     if len(hrecs) < len(hcases) or not hmodes.get("inline") or not hmodes.get("goroutines"):
         raise vlib.Inconclusive("driver replayed %d of %d histories %s" % (len(hrecs), len(hcases), hmodes))
+    # the replayed packets carry the generated body classes (the driver fills the contents)
+    prec = dict(nonzero_body_packets=0, by_class={c: 0 for c in PH_CLASSES})
+    for r in wrecs:
+        if r["k"] == "nts":
+            cls = [ph_class(b) for b in r["in"]["ph"]]
+            prec["nonzero_body_packets"] += any(c != "zero" for c in cls)
+            for c in cls:
+                prec["by_class"][c] += 1
+    if prec["nonzero_body_packets"] < pstat["nonzero_body_cases"] or any(
+            prec["by_class"][c] < pstat["by_class"][c] for c in ("first", "last")):
+        raise vlib.Inconclusive("driver replayed %s placeholder bodies, generated were %s" % (prec, pstat))
     nvals = sum(len(r["fl"]) for r in wrecs if r["k"] == "lay")
     if nvals == 0 or any(not all(x & 1 for x in r["fl"]) for r in wrecs if r["k"] == "lay"):
         raise vlib.Inconclusive("layout records without claimed values")
@@ -473,6 +527,14 @@ def _run(ctx, q, pool, lanes):
                      (len(hcases), ", ".join("%s=%s" % (k, v) for k, v in hstat.items()), len(hrecs), ncalls,
                       hrstat["two_goroutines"], hrstat["overlapping"]))
     ctx.log(ctx.notes[-1])
+    ctx.notes.append("contents of bodies the decoder may ignore (cookie placeholders; EncodePacket emits no other such field): "
+                     "TLC generated %d NTS cases, %d of them with a non-zero placeholder body (%d real-sized NewRequestPacket "
+                     "requests with 124-byte bodies); placeholder bodies by class %s, by class/length %s; the driver replayed "
+                     "%d packets with a non-zero placeholder body (bodies by observed class %s) through the real EncodePacket / "
+                     "DecodePacket / ProcessRequest, judged by the unchanged RNtsKinds / RNtsValues / RNtsAuth / RNtsAligned" %
+                     (pstat["nts_cases"], pstat["nonzero_body_cases"], pstat["api_nonzero_body_cases"], pstat["by_class"],
+                      dict(sorted(pstat["by_class_len"].items())), prec["nonzero_body_packets"], prec["by_class"]))
+    ctx.log(ctx.notes[-1])
     small = [r for r in wrecs if r["k"] in ("lvm", "sck") and rec_weight(r) < 1500][:2] + \
             [r for r in wrecs if r["k"] == "nts" and rec_weight(r) < 2500][:1] + \
             [dict(r, vs=r["vs"][:4], eb=r["eb"][:4], db=r["db"][:4], fl=r["fl"][:4], declen=r["declen"][:4], note="first 4 values shown")
@@ -487,7 +549,9 @@ def _run(ctx, q, pool, lanes):
              "{0, max, sign boundaries, 2^k, 2^k+-1} for every width) + masked byte patterns decoded and re-encoded + "
              "values decoded into a destination holding a previously decoded value (TLC-enumerated pairs of (flag, base pattern) "
              "classes incl. flag set -> flag clear, plus seeded random contents) + all 256 first bytes x 20 setter calls + NTS packet shapes (unique id / cookie / placeholder / encrypted "
-             "cookie lengths, NewRequestPacket / NewResponsePacket) with seeded contents + cookie shapes; stream reads: every "
+             "cookie lengths, NewRequestPacket / NewResponsePacket) with seeded contents, placeholder bodies by content class "
+             "{all zero, one non-zero byte first / last, random} (one placeholder of a non-zero class at every position, or all random) "
+             "+ cookie shapes; stream reads: every "
              "TLC behaviour (message of <= MaxRecs records + end of message, every segmentation into <= MaxChunks reads) "
              "replayed through a chunking io.Reader, a subset over an in-memory TLS connection written in explicit "
              "pieces, plus real-sized server messages (8 x 124-byte cookies) under seeded cuts; histories of calls: every "
@@ -499,7 +563,8 @@ def _run(ctx, q, pool, lanes):
              "per-value observations inside layout records + calls inside histories; distinct = distinct (kind, inputs) records",
         traces_validated_against_impl=nw + nk + nh, exhaustive=True, samples=small,
         records=dict(codec=kinds, stream=modes, layout_values=nvals, histories=hmodes, history_calls=ncalls),
-        histories=dict(generated=hstat, replayed=hrstat), spec_variant=variant)
+        histories=dict(generated=hstat, replayed=hrstat), placeholder_bodies=dict(generated=pstat, replayed=prec),
+        spec_variant=variant)
     ctx.assumptions += [
         "decoding into a reused destination is judged for the fixed-layout decoders (ntp.DecodePacket, csptp.DecodeMessage / "
         "DecodeRequestTLV / DecodeResponseTLV; the CSPTP client reuses its Message and ResponseTLV variables); nts.DecodePacket "
